@@ -733,13 +733,15 @@ Qed.
 Lemma integral_known : forall x y r, known_rule r -> integral x y r = Ok (integ r x y).
 Proof. intros x y r [-> | ->]; reflexivity. Qed.
 
-Lemma match_ref_eq : forall pw x y xr yr m rt rr fi ridx, known_rule rr ->
+(* since the repair of D11 (target rule validated first) this needs [known_rule rt]:
+   for rt = UnknownRule and no window the right-hand side is [Ok y], the left one raises *)
+Lemma match_ref_eq : forall pw x y xr yr m rt rr fi ridx, known_rule rt -> known_rule rr ->
   resolve_fixed x xr m = Ok (fi, ridx) ->
   match_ref pw x y xr yr m rt rr
   = interval_match pw rt x y (sum_over_indices (integ rr xr yr) ridx) fi.
 Proof.
-  intros pw x y xr yr m rt rr fi ridx Hrr Hres. unfold match_ref.
-  rewrite Hres, (integral_known xr yr rr Hrr). reflexivity.
+  intros pw x y xr yr m rt rr fi ridx Hrt Hrr Hres. unfold match_ref.
+  destruct Hrt as [-> | ->]; rewrite Hres, (integral_known xr yr rr Hrr); reflexivity.
 Qed.
 
 Theorem match_ref_windows : forall pw x y xr yr m rt rr fi ridx, PwOk pw -> known_rule rt -> known_rule rr ->
@@ -751,7 +753,7 @@ Theorem match_ref_windows : forall pw x y xr yr m rt rr fi ridx, PwOk pw -> know
       total rt (window x fi j) (window res fi j) = ref_integral rr xr yr ridx j.
 Proof.
   intros pw x y xr yr m rt rr fi ridx Hpw Hrt Hrr Hs Hxy _ Hres Hgap Hbel Hlen.
-  rewrite (match_ref_eq pw x y xr yr m rt rr fi ridx Hrr Hres).
+  rewrite (match_ref_eq pw x y xr yr m rt rr fi ridx Hrt Hrr Hres).
   destruct (interval_windows pw rt x y (sum_over_indices (integ rr xr yr) ridx) fi Hpw Hrt Hs Hxy Hgap Hbel)
     as [res [H1 [H2 H3]]].
   { rewrite soi_length. lia. }
@@ -800,8 +802,8 @@ Theorem match_idempotent : forall pw x y xr yr m rt rr fi ridx res, PwOk pw -> k
   match_ref pw x res xr yr m rt rr = Ok res.
 Proof.
   intros pw x y xr yr m rt rr fi ridx res Hpw Hrt Hrr Hs Hxy Hxr Hres Hgap Hbel Hlen Hm.
-  rewrite (match_ref_eq pw x y xr yr m rt rr fi ridx Hrr Hres) in Hm.
-  rewrite (match_ref_eq pw x res xr yr m rt rr fi ridx Hrr Hres).
+  rewrite (match_ref_eq pw x y xr yr m rt rr fi ridx Hrt Hrr Hres) in Hm.
+  rewrite (match_ref_eq pw x res xr yr m rt rr fi ridx Hrt Hrr Hres).
   set (T := sum_over_indices (integ rr xr yr) ridx) in *.
   destruct (interval_windows pw rt x y T fi Hpw Hrt Hs Hxy Hgap Hbel) as [res' [H1 [H2 H3]]].
   { unfold T. rewrite soi_length. lia. }
